@@ -19,6 +19,7 @@ RULE = ('exhaustive: every ordered pair and triple of the 16 binary operators (i
         'parentheses; a case is one expression text; all cases are non-trivial (>= 2 operators); distinct by text')
 ASSUMPTIONS = ['the expected grouping is the table in README.rst "Operators" (unary, is, * / %, + -, comparisons and equality, and, or, ??), '
                'left associativity within a level, ?? and `is` not chainable without parentheses']
+REQUIRED_HIDC_FUNCTIONS = ['parser/grammar:bin_op', 'parser/grammar:ps_expr3']     # M-COV: deciding code never entered => inconclusive
 MIN_NONTRIVIAL = {'quick': 5000, 'thorough': 40000}
 
 
